@@ -43,6 +43,11 @@ func c06Observe(o object.PanObject, depth int) string {
 	if c06ObserveProg == nil || depth > 1 {
 		return ""
 	}
+	if tooDeep(o, 12) {
+		// (a value that has come to contain itself would send the interpreter's own
+		// Inspect into unbounded recursion - a fatal stack overflow, not a panic)
+		return "|shows<nested deeper than 12 levels>"
+	}
 	env := object.NewEnclosedEnv(c06ObserveGlobal)
 	env.Set(c06ObserveSym, o)
 	var out string
